@@ -30,6 +30,7 @@ class FakeTransport:
         self.closed = False
 
     def write(self, data):
+        self.w.raw_writes.append(bytes(data))
         self.w.gateway.on_write(bytes(data))
 
     def close(self):
@@ -152,6 +153,7 @@ class SerialWorld(World):
         self.silent = silent
         self.connect_caller = None
         self.status_log = []
+        self.raw_writes = []
 
     def build(self):
         from dali.driver import serial as S
